@@ -169,7 +169,7 @@ def speigs(A, k, *args, **kwargs):
         else:
             W = np.linalg.eigvals(Amat)
             keep = misc.argsort(W, which)[:k]
-            return W
+            return W[keep]
 
 
 def speigsh(A, k, *args, **kwargs):
@@ -217,7 +217,7 @@ def speigsh(A, k, *args, **kwargs):
         else:
             W = np.linalg.eigvalsh(Amat)
             keep = misc.argsort(W, which)[:k]
-            return W
+            return W[keep]
 
 
 def perm_sign(p):
